@@ -750,6 +750,17 @@ def run(ctx: Ctx) -> int:
             real.append(("yyyy yy y D ww EEE", datetime(yr, 12, 31, 23, 59, 58)))
         for us in [0, 1, 9, 10, 99, 100, 999, 1000, 9999, 10000, 99999, 100000, 123456, 999999] + [rng.randrange(10 ** 6) for _ in range(100)]:
             real.append(("S SS SSS SSSS SSSSS", datetime(2023, 3, 5, 7, 8, 9, us)))
+        # instants where a stored representation is zero or changes sign: the 2001 storage epoch (0.0 s), the Unix, Mac
+        # and spreadsheet epochs, the ends of the calendar; one step either side of each
+        for e0 in (datetime(2001, 1, 1), datetime(1970, 1, 1), datetime(1904, 1, 1), datetime(1900, 1, 1),
+                   datetime(1899, 12, 30), datetime(2000, 1, 1), datetime(1, 1, 1, 0, 0, 1), datetime(9999, 12, 31, 23, 59, 58)):
+            for dlt in (timedelta(0), timedelta(seconds=1), timedelta(seconds=-1), timedelta(days=1), timedelta(days=-1)):
+                try:
+                    t_ = e0 + dlt
+                except OverflowError:
+                    continue
+                real.append(("yyyy MM dd HH mm ss a k D EEE", t_))
+                real.append(("kk:mm:ss", t_))
         for parts, f, t in fmt_cases[: (1500 if ctx.quick else 20000)]:
             real.append((f, t))
         real = [(f, t) for f, t in real if "\x00" not in f]
